@@ -3277,6 +3277,7 @@ impl LineBuf {
 					MotionKind::LineOffset(_) => self.range_from_motion(&motion).map(|(start,_)| start),
 					_ => None
 				};
+				let own_col = self.saved_col.unwrap_or(self.cursor.get().saturating_sub(self.start_of_line()));
 				let content = self.get_register_content(&verb, &motion);
 				register.write_to_register(content);
 				if let Some(SelectRange::TwoDim(sel)) = self.select_range.as_ref() {
@@ -3303,10 +3304,21 @@ impl LineBuf {
 							}
 						MotionKind::ExclusiveWithTargetCol((_,_),pos) |
 							MotionKind::InclusiveWithTargetCol((_,_),pos) => {
+								// 'dd', 'dj', 'dk': the cursor keeps its own column on the line that took their place
+								let pos = if self.is_selecting() { pos } else { own_col };
 								let (start,end) = self.this_line();
-								self.cursor.set(start);
-								self.cursor.add(end.min(pos));
+								let last = if end > start && self.grapheme_at(end - 1) == Some("\n") { end - 1 } else { end };
+								self.cursor.set((start + pos).min(last.saturating_sub(1)).max(start));
 							}
+						MotionKind::LineOffset(_) if verb == Verb::Delete && !self.is_selecting() => {
+							// 'dG', 'dgg': the same
+							if let Some(start) = lines_start {
+								self.cursor.set(start);
+							}
+							let (start,end) = self.this_line();
+							let last = if end > start && self.grapheme_at(end - 1) == Some("\n") { end - 1 } else { end };
+							self.cursor.set((start + own_col).min(last.saturating_sub(1)).max(start));
+						}
 						MotionKind::LineOffset(_) if verb == Verb::Change && lines_start.is_some() => {
 							// 'cG', 'cgg': the lines are emptied and the typed text goes where they began
 							self.cursor.set(lines_start.unwrap_or_default());
